@@ -379,29 +379,51 @@ func Journal(script any) {
 
 // ---- real-time pause usable from inside a bubble ----------------------------
 
+type realSleeper struct {
+	req  chan time.Duration // created outside any bubble
+	done chan struct{}
+}
+
 var (
 	realSleepMu   sync.Mutex
-	realSleepReq  = make(chan time.Duration) // created outside any bubble
-	realSleepDone = make(chan struct{})
+	realSleepFree []*realSleeper
 )
 
 func init() {
-	go func() { // outside any bubble: real clock
-		for d := range realSleepReq {
-			time.Sleep(d)
-			realSleepDone <- struct{}{}
-		}
-	}()
+	for i := 0; i < 16; i++ {
+		rs := &realSleeper{req: make(chan time.Duration), done: make(chan struct{})}
+		realSleepFree = append(realSleepFree, rs)
+		go func() { // outside any bubble: real clock
+			for d := range rs.req {
+				time.Sleep(d)
+				rs.done <- struct{}{}
+			}
+		}()
+	}
 }
 
 // RealSleep pauses the calling goroutine for d of wall-clock time, also when
 // called inside a synctest bubble (where time.Sleep is virtual and where the
 // virtual clock cannot advance while a goroutine waits for a sync.Mutex).
+// Up to 16 goroutines can sleep at the same time.
 func RealSleep(d time.Duration) {
+	var rs *realSleeper
+	for rs == nil {
+		realSleepMu.Lock()
+		if n := len(realSleepFree); n > 0 {
+			rs = realSleepFree[n-1]
+			realSleepFree = realSleepFree[:n-1]
+		}
+		realSleepMu.Unlock()
+		if rs == nil {
+			runtime.Gosched()
+		}
+	}
+	rs.req <- d
+	<-rs.done
 	realSleepMu.Lock()
-	defer realSleepMu.Unlock()
-	realSleepReq <- d
-	<-realSleepDone
+	realSleepFree = append(realSleepFree, rs)
+	realSleepMu.Unlock()
 }
 
 // FullStack returns the stacks of all goroutines.
